@@ -1,6 +1,8 @@
 """C05 - probes deliver exactly-once while active and leave no trace once deactivated."""
 
 import collections
+import importlib.util
+import os
 
 from vlib import calltree as CT, common
 from vlib.common import ShardResult, rng_for
@@ -264,17 +266,8 @@ class World:
                 evs.sort(key=lambda x: x[0])
             e.setdefault("synced", len(e["expected"]))
             e["expected"].extend(ev for _, ev in evs)
-        if any(e["kind"] == "total-raising" for e in self.active):
-            # a subscriber that raises at an activation's exit aborts the delivery loop of that exit,
-            # so OTHER total probes closing at the same exit may lose that record: their streams are
-            # not asserted for this call (immediate probes and all state invariants still are)
-            for e in self.active:
-                if e["kind"] in ("total", "total-raising"):
-                    new_exp = canon(e["expected"][e.get("synced", 0):])
-                    new_got = canon(e["out"][e.get("synced", 0):])
-                    if all(g in new_exp for g in new_got):
-                        e["expected"] = list(e["out"])  # nothing spurious: accept what was delivered
-                    e["synced"] = len(e["expected"])
+        # (a subscriber that raises at an activation's exit must not take away the records that
+        # other total probes get at the same exit: every stream is asserted)
         return raised
 
 
@@ -468,11 +461,50 @@ def fresh_family(scratch, tag):
     return ns
 
 
+def check_inplace_after_probe(scratch, res):
+    """A function that was probed once (and keeps an idle variant stack) is then tooled in place: probes
+    on it must leave the full tooling alone - an overlay on another variable keeps receiving its events
+    while they are active, and the function is still fully tooled afterwards."""
+    from ptera import Overlay, probing, tooled
+    from ptera.utils import is_tooled
+
+    src = "def f(x):\n    a = x + 1\n    b = a * 2\n    return b\n"
+    path = os.path.join(scratch, "c05inplace.py")
+    with open(path, "w") as fh:
+        fh.write(src)
+    sp = importlib.util.spec_from_file_location("c05inplace", path)
+    mod = importlib.util.module_from_spec(sp)
+    sp.loader.exec_module(mod)
+    ns = vars(mod)
+    res.evaluations += 1
+    res.deciding += 1
+    try:
+        with probing("f > a", env=ns):
+            mod.f(0)
+        tooled.inplace(mod.f)
+        from ptera.selector import select
+
+        with Overlay.tapping(select("f > b", env=ns)) as seen:
+            mod.f(1)
+            with probing("f > a", env=ns) as p:
+                got = p.accum()
+                mod.f(2)
+            mod.f(3)
+        ok = [d["b"] for d in seen] == [4, 6, 8] and got == [{"a": 3}] and is_tooled(mod.f)
+        if not ok:
+            res.violation({"inplace_after_probe": True}, {"what": "probe on a function tooled in place after an earlier probe disturbed the full tooling", "overlay_saw_b": [d["b"] for d in seen], "probe_saw": got, "still_tooled": is_tooled(mod.f)})
+    except Exception as e:
+        res.violation({"inplace_after_probe": True}, "exception: " + common.fmt_exc(e))
+    res.count("inplace_after_probe_checks")
+
+
 def run_shard(spec):
     res = ShardResult()
     known = set(spec.get("known", []))
     scratch = spec["scratch"]
     maxlen = spec["maxlen"]
+    if spec["part"] != "enum" and spec["range"][0] == 0:
+        check_inplace_after_probe(scratch, res)
     if spec["part"] == "enum":
         cases = list(enum_histories(spec["enum_len"]))
         cases = [c for i, c in enumerate(cases) if i % spec["nshards"] == spec["shard"]]
